@@ -1560,7 +1560,7 @@ static int do_scan_fine(uint64_t seed0, uint64_t count, const char * hashfile, u
       uint64_t th = mix64(p.hash, 0x77);
       for (const TraceRec & t : oc.trace) { th = mix64(th, (static_cast<uint64_t>(t.seg) << 40) ^ (static_cast<uint64_t>(t.from) << 32) ^ t.idx); th = mix64(th, t.to); if (t.to == SW_NEST) continue; if (t.from != SW_START && t.idx != SW_AT_END) ++st.preemptions; }
       for (const Segment & g : sc.segs) if (g.items.size() > 1) { ++st.concurrent_segments; st.concurrent_calls += g.items.size(); th = mix64(th, g.items.size() * 131u + static_cast<uint64_t>(g.items[0])); }
-      { uint64_t dd = th; for (size_t i = 0; i < n; ++i) { dd = mix64(dd, oc.res[i].status); dd = mix64(dd, oc.res[i].bits); } st.digest += dd; }
+      { uint64_t dd = th; for (size_t i = 0; i < oc.res.size(); ++i) { dd = mix64(dd, oc.res[i].status); dd = mix64(dd, oc.res[i].bits); } st.digest += dd; }     // nested calls and echo probes included
       bool has_conc = false;
       for (const Segment & g : sc.segs) if (g.items.size() > 1 || !g.nested.empty()) has_conc = true;
       if (has_conc) { st.traces.insert(th); if (hf) fwrite(&th, 8, 1, hf); }
